@@ -23,7 +23,12 @@ CALLS = {  # POSIX call -> (Lean constructor, argument pattern over normalised t
     "pthread_cond_timedwait": ("condTimedWait", r"\( pthread_cond_t \* \) cdata , \( pthread_mutex_t \* \) mdata , & ts"),
     "pthread_cond_signal": ("condSignal", r"\( pthread_cond_t \* \) cdata"),
     "pthread_cond_broadcast": ("condBroadcast", r"\( pthread_cond_t \* \) cdata"),
+    # semaphore calls report failure as -1 (+ errno, which the three simple member functions do not look at)
+    "sem_post": ("semPost", r"\( sem_t \* \) data"),
+    "sem_wait": ("semWait", r"\( sem_t \* \) data"),
+    "sem_trywait": ("semTryWait", r"\( sem_t \* \) data"),
 }
+MINUS_ONE = ("semPost", "semWait", "semTryWait")
 _TOK = re.compile(r"[A-Za-z_]\w*|\d+|==|!=|&&|\|\||[^\s\w]")
 
 
@@ -75,6 +80,10 @@ class Parser:
             self.take()
             neg = True
         v = self.take()
+        if c in MINUS_ONE:
+            if (neg, v) != (True, "1"):
+                raise CfgErr(f"{self.what}: a sem_ call is compared with {'-' if neg else ''}{v} (-1 expected)")
+            return ("callcmp", c, op == "!=")
         if (neg, v) != (False, "0"):
             raise CfgErr(f"{self.what}: a pthread call is compared with {'-' if neg else ''}{v} (0 expected)")
         return ("callcmp", c, op == "==")
